@@ -1,6 +1,6 @@
 \* thorough: client close, server shutdown, read limit; <= 3 frames
 CONSTANTS
-  FrameAlphabet <- FramesEnd
+  FrameAlphabet <- FramesEnd3
   MaxFrames = 3
   MaxSubs = 2
   MaxNotes = 1
@@ -12,9 +12,10 @@ CONSTANTS
   WriteMutex = TRUE
   WaitActivation = TRUE
   FixNonRequest = FALSE
+  FixCloseReason = FALSE
 INIT Init
 NEXT Next
 VIEW view
-INVARIANTS TypeOK POnePerFrame PContent PInvocations PWholeFrames PRespFIFO PNotesFIFO PAfterActivation PNoNoteAfterUnsub PClientView PReadLimit PCloseIsLast
+INVARIANTS TypeOK POnePerFrame PContent PInvocations PWholeFrames PRespFIFO PNotesFIFO PAfterActivation PNoNoteAfterUnsub PClientView PReadLimit PInternalClose PCloseIsLast
 PROPERTIES PNoWriteAfterExit PExitFinal PErrorMeansNothingWritten
 CHECK_DEADLOCK FALSE
